@@ -52,16 +52,16 @@ def extra(chk, t, g, case):
     fresh_t = Element.from_tag(xml)
     fresh = reads_of(fresh_t, g, seed)
     for k in live:
-        if live[k] != fresh.get(k):
+        if not T.same(live[k], fresh.get(k)):
             chk.fail({**case, "read": k, "live": live[k], "fresh_parse": fresh.get(k)},
                      f"live table and fresh parse of its own XML disagree on {k}")
             return False
     lg, cols, rows, problems = T.lxml_grid(xml)
-    if lg.values() != live["values"] or (lg.ncols, len(lg.rows)) != live["size"]:
+    if not T.same(lg.values(), live["values"]) or (lg.ncols, len(lg.rows)) != live["size"]:
         chk.fail({**case, "live": [live["size"], live["values"]], "independent_reader": [(lg.ncols, len(lg.rows)), lg.values()]},
                  "live table disagrees with an independent expansion of its XML")
         return False
-    if [[c for c in r] for r in lg.cells()] != [[c for c in r] for r in live["traverse"]]:
+    if not T.same(lg.cells(), live["traverse"]):
         chk.fail({**case, "live": live["traverse"], "independent_reader": lg.cells()}, "cells (value, style) differ from the independent expansion")
         return False
     chk.count("c02", "steps with live==fresh==lxml")
@@ -81,7 +81,7 @@ def save_reload(chk, t, live, case):
     doc.save(bio)
     bio.seek(0)
     t2 = Document(bio).body.get_table(0)
-    if tuple(t2.size) != live["size"] or t2.get_values() != live["values"]:
+    if tuple(t2.size) != live["size"] or not T.same(t2.get_values(), live["values"]):
         chk.fail({**case, "live": [live["size"], live["values"]], "reloaded": [tuple(t2.size), t2.get_values()]},
                  "a document saved right after the operation reloads to another table")
         return False
